@@ -325,7 +325,7 @@ pub fn c09(ctx: &Ctx) -> Collector {
 
 pub fn c10(ctx: &Ctx) -> Collector {
     let col = Collector::new("C10", "exploration");
-    col.set_rule("cases = union of S_len to length 8000 (ctr; thorough adds all-minimum, all-maximum and pad-look-alike content), S_cell, S_opt, S_group, S_small, S_forced_version, S_beyond; forced modes only with inputs inside the mode's alphabet, automatic mode with arbitrary bytes; oracle: the call returns Ok or one of the two documented errors: no unwind (catch_unwind), no abort (supervising parent process), no case over the watchdog limit; the subject is built with overflow checks and debug assertions; non-trivial = a symbol was returned; distinct = distinct symbol matrices");
+    col.set_rule("cases = union of S_len to length 8000 (ctr; thorough adds all-minimum, all-maximum and pad-look-alike content), S_cell, S_opt, S_group, S_small, S_forced_version, S_beyond, S_cross, all class patterns to length 8, S_pair_ctx, long automatic-mode strings with one foreign character; forced modes only with inputs inside the mode's alphabet, automatic mode with arbitrary bytes; oracle: the call returns Ok or one of the two documented errors: no unwind (catch_unwind), no abort (supervising parent process), no case over the watchdog limit; the subject is built with overflow checks and debug assertions; non-trivial = a symbol was returned; distinct = distinct symbol matrices");
     col.assume("fast_qr is compiled with overflow-checks = true and debug-assertions = true (harness/Cargo.toml profile), so integer overflow and the placed-bit-count assertion unwind and are caught");
     let p = ["C10"];
     let mut i = 0;
@@ -342,6 +342,9 @@ pub fn c10(ctx: &Ctx) -> Collector {
     run_space(&col, 16, &s_byte_at_position(if ctx.tier.thorough() { 5 } else { 4 }), &p, false, &no_extra);
     run_space(&col, 17, &spaces::s_cap_families(ctx.tier.thorough()), &p, false, &no_extra);
     run_space(&col, 18, &spaces::s_cross(ctx.tier.thorough()), &p, false, &no_extra);
+    run_space(&col, 19, &s_class_patterns(8), &p, false, &no_extra);
+    run_space(&col, 21, &spaces::s_pair_ctx(ctx.tier.thorough()), &p, false, &no_extra);
+    run_space(&col, 22, &s_long_auto(ctx.tier.thorough()), &p, false, &no_extra);
     seeded_supplement(ctx, &col, 20, &p, false);
     col
 }
